@@ -44,7 +44,7 @@ var colC13 *ev.Collector
 func propC13(t *rapid.T) {
 	col := colC13
 	col.Case()
-	cfg := irsem.GenCfg{MaxDepth: rapid.IntRange(1, 5).Draw(t, "depth"), GadgetProb: 10, LessBudget: 4096, MoreLess: true}
+	cfg := irsem.GenCfg{MaxDepth: rapid.IntRange(1, ev.Scale(5, 7)).Draw(t, "depth"), GadgetProb: 10, LessBudget: 4096, MoreLess: true}
 	e := irsem.GenExpr(t, cfg)
 	before := irsem.String(e)
 	wantN := c13Count(e)
